@@ -67,6 +67,9 @@ func (e *env) key(name string) *gen.PGPKey {
 func (e *env) keyring(names ...string) (arm []string) {
 	arm = []string{}
 	for _, n := range names {
+		if n == NilRing {
+			continue
+		}
 		arm = append(arm, e.key(n).Public)
 	}
 	return
@@ -103,6 +106,25 @@ func (e *env) mk(b base, kind, name, fault string, members []gen.ArMember, sigs 
 	}
 	return In{Name: b.name + " " + name, Kind: kind, Fault: fault, Model: b.model, Exp: b.exp, Sigs: sigs, Ask: ask,
 		Keyring: e.keyring(keys...), KeyringNames: keys, Orders: orders, Deb: gen.BuildAr(members)}
+}
+
+// otherRings: besides the signer's own ring [K1] every tampering scenario is also run with the signer among others
+// (first / last), an unrelated ring, the empty non-nil list and the nil list.
+var otherRings = [][]string{{"K1", "K2"}, {"K2", "K1"}, {"K2"}, {}, {NilRing}}
+
+// widen appends, for every stride-th input, copies under the other keyrings (package bytes are shared).
+func (e *env) widen(ins []In, stride int, rings [][]string) []In {
+	n := len(ins)
+	for i := 0; i < n; i += stride {
+		for _, kr := range rings {
+			in := ins[i]
+			in.KeyringNames = append([]string{}, kr...)
+			in.Keyring = e.keyring(kr...)
+			in.Name += fmt.Sprintf(" [keyring %v]", kr)
+			ins = append(ins, in)
+		}
+	}
+	return ins
 }
 
 func insertAt(ms []gen.ArMember, pos int, extra ...gen.ArMember) []gen.ArMember {
@@ -286,7 +308,8 @@ func Run(r *mc.Run) {
 		allRoles = append(allRoles, strings.TrimPrefix(a, "_gpg"))
 	}
 	r.Extra["alphabet_audit"] = audit.Evidence()
-	keyrings := [][]string{{"K1"}, {"K2"}, {"K1", "K2"}, {}}
+	keyrings := [][]string{{"K1"}, {"K2"}, {"K1", "K2"}, {"K2", "K1"}, {}, {NilRing}}
+	seqKeyrings := [][]string{{"K1"}, {"K2"}, {"K1", "K2"}, {}, {NilRing}}
 	var ins []In
 	for _, b := range bases {
 		for _, pos := range []string{"end", "after-debian-binary"} {
@@ -332,7 +355,7 @@ func Run(r *mc.Run) {
 		}
 		var alphabet []Call
 		for _, ro := range seqRoles {
-			for _, kr := range keyrings {
+			for _, kr := range seqKeyrings {
 				alphabet = append(alphabet, Call{Ask: ro, KeyringNames: append([]string{}, kr...)})
 			}
 		}
@@ -367,7 +390,7 @@ func Run(r *mc.Run) {
 		}
 		// one shard per (package, first call): the sequence [first] and all its extensions
 		e.r.Scenario("call-sequences", map[string]interface{}{"packages": []string{"signed origin by K1", "signed origin by K1 and maint by K2"}, "bases": names(bases[:nSeqBases]),
-			"roles": seqRoles, "keyrings": keyrings, "calls_alphabet": len(alphabet), "max_calls": maxLen, "sequences_per_package": nSeq,
+			"roles": seqRoles, "keyrings": seqKeyrings, "calls_alphabet": len(alphabet), "max_calls": maxLen, "sequences_per_package": nSeq,
 			"oracle": "each call judged alone: success only if the asked role's member exists and is a signature by a key in the keyring passed to THAT call over the exposed members; failures are never objected to"},
 			len(pkgs)*len(alphabet), func(si int, st *mc.Stats) bool {
 				pk, first := pkgs[si/len(alphabet)], alphabet[si%len(alphabet)]
@@ -412,6 +435,7 @@ func Run(r *mc.Run) {
 		sis[bi] = si
 	}
 	const chunkLen = 128
+	faultRingStride := r.Pick(16, 4) // every n-th faulted position is also run under the five other keyrings
 	var xorShards, lenShards []fshard
 	positions := 0
 	for bi := range bases {
@@ -465,12 +489,17 @@ func Run(r *mc.Run) {
 				emit(fmt.Sprintf("%s + %d bytes %.12q", name, len(sfx), sfx), fmt.Sprintf("%d bytes %.20q appended to member %s", len(sfx), sfx, name), append(append([]byte(nil), orig...), sfx...))
 			}
 		}
-		return out
+		if sh.kind == "append" {
+			return e.widen(out, 1, otherRings)
+		}
+		return e.widen(out, faultRingStride, otherRings)
 	}
-	e.r.Scenario("byte-faults", map[string]interface{}{"bases": names(bases), "members": "debian-binary, control.tar*, data.tar*, _gpgorigin", "byte_positions": positions, "xor_values": fmt.Sprintf("%#v", xors)},
+	e.r.Scenario("byte-faults", map[string]interface{}{"bases": names(bases), "members": "debian-binary, control.tar*, data.tar*, _gpgorigin", "byte_positions": positions, "xor_values": fmt.Sprintf("%#v", xors),
+		"keyrings": fmt.Sprintf("[K1] for every fault; %v for every %d-th faulted input", otherRings, faultRingStride)},
 		len(xorShards), func(i int, st *mc.Stats) bool { return runIns(e.r, "byte-faults", genFaults(xorShards[i]), st) })
 	e.r.Scenario("length-faults", map[string]interface{}{"bases": names(bases), "members": "debian-binary, control.tar*, data.tar*, _gpgorigin", "byte_positions": positions,
-		"insert_values_at_every_position": fmt.Sprintf("%#v", inserted), "delete_at_every_position": true, "truncate_at_every_position": true, "appended_suffixes": suffixes},
+		"insert_values_at_every_position": fmt.Sprintf("%#v", inserted), "delete_at_every_position": true, "truncate_at_every_position": true, "appended_suffixes": suffixes,
+		"keyrings": fmt.Sprintf("[K1] for every fault; %v for every %d-th faulted input and for every appended suffix", otherRings, faultRingStride)},
 		len(lenShards), func(i int, st *mc.Stats) bool { return runIns(e.r, "length-faults", genFaults(lenShards[i]), st) })
 
 	// ---- scenario 3: decoy control.* / data.* members at every position, each under the explored map orders
@@ -485,7 +514,8 @@ func Run(r *mc.Run) {
 			}
 		}
 	}
-	e.scenario("decoy-members", map[string]interface{}{"bases": names(bases), "decoys": decoyNames(e, bases[0], r.Quick()), "positions": "every member position 0..4",
+	ins = e.widen(ins, 1, otherRings)
+	e.scenario("decoy-members", map[string]interface{}{"keyrings": fmt.Sprintf("[K1] and %v", otherRings), "bases": names(bases), "decoys": decoyNames(e, bases[0], r.Quick()), "positions": "every member position 0..4",
 		"orders": c14.MapOrderNote, "repetitions_per_variant": c14.MapOrderReps}, ins, 1)
 
 	// ---- scenario 3b: SWAPS - a member's content is replaced by the attacker's and the originally signed bytes stay in
@@ -548,8 +578,9 @@ func Run(r *mc.Run) {
 			}
 		}
 	}
+	ins = e.widen(ins, 5, [][]string{{"K2", "K1"}, {}, {NilRing}})
 	c14.MapOrderBound = r.Pick(1, 2)
-	e.scenario("swapped-members", map[string]interface{}{"bases": names(bases[:2]), "kept_original_names": swapNames, "positions": "every member position 0..4",
+	e.scenario("swapped-members", map[string]interface{}{"keyrings": "[K1] for every variant; [K2 K1], the empty list and the nil list for position 0 of every (member, name)", "bases": names(bases[:2]), "kept_original_names": swapNames, "positions": "every member position 0..4",
 		"replacement":                "debian-binary -> \"2.0\\nevil\\n\"; control/data -> the attacker's tar in the same encoding; _gpgorigin -> K2's signature (keyring stays [K1])",
 		"names_longer_than_16_bytes": "dropped (ar name field)", "map_order_deviation_bound": c14.MapOrderBound, "orders": c14.MapOrderNote}, ins, 1)
 	c14.MapOrderBound = 2
@@ -603,7 +634,8 @@ func Run(r *mc.Run) {
 			ins = append(ins, e.mk(b, "rename", fmt.Sprintf("member order %v", perm), "members reordered", ms, []SigInfo{si}, "origin", []string{"K1"}, false))
 		}
 	}
-	e.scenario("renames", map[string]interface{}{"bases": names(bases), "what": "each signed member and the signature member renamed (other encodings, near-miss names), roles asked {origin,maint,archive,\"\",Origin,origin2} for renamed signatures, 4 member reorderings"}, ins, 8)
+	ins = e.widen(ins, 1, otherRings)
+	e.scenario("renames", map[string]interface{}{"keyrings": fmt.Sprintf("[K1] and %v", otherRings), "bases": names(bases), "what": "each signed member and the signature member renamed (other encodings, near-miss names), roles asked {origin,maint,archive,\"\",Origin,origin2} for renamed signatures, 4 member reorderings"}, ins, 8)
 
 	// ---- scenario 5: a valid signature by K1 over some OTHER concatenation
 	ins = nil
@@ -641,7 +673,8 @@ func Run(r *mc.Run) {
 				append(append([]gen.ArMember(nil), b.mem...), sm), []SigInfo{si}, "origin", []string{"K1"}, false))
 		}
 	}
-	e.scenario("signed-byte-string", map[string]interface{}{"bases": names(bases), "alternatives": "15 wrong concatenations (subsets, permutations, extensions, truncations of debian-binary‖control‖data) + 3 unread-remainder variants on the stored base"}, ins, 4)
+	ins = e.widen(ins, 1, otherRings)
+	e.scenario("signed-byte-string", map[string]interface{}{"keyrings": fmt.Sprintf("[K1] and %v", otherRings), "bases": names(bases), "alternatives": "15 wrong concatenations (subsets, permutations, extensions, truncations of debian-binary‖control‖data) + 3 unread-remainder variants on the stored base"}, ins, 4)
 }
 
 func names(bs []base) []string {
